@@ -79,8 +79,27 @@ Verdict judge(const Case& c) {
       break;
     }
     case D_BooleanOp: {
-      PathsD got = BooleanOp(ct, fr, subj, clip, prec);
+      // three routes to the same operation: BooleanOp, the named wrapper, BooleanOp into a PolyTreeD (flattened)
+      int alt = (int)c.I("alt", 0);
+      PathsD got;
       Paths64 want = BooleanOp(ct, fr, scaleIn(subj, s2), scaleIn(clip, s2));
+      if (alt == 1) {
+        switch (ct) {
+          case ClipType::Intersection: got = Intersect(subj, clip, fr, prec); break;
+          case ClipType::Union: got = c.I("closed") && clip.empty() ? Union(subj, fr, prec) : Union(subj, clip, fr, prec); break;
+          case ClipType::Difference: got = Difference(subj, clip, fr, prec); break;
+          default: got = Xor(subj, clip, fr, prec); break;
+        }
+        ST.count("booleanop_via_named_wrapper");
+      } else if (alt == 2) {
+        PolyTreeD t;
+        BooleanOp(ct, fr, subj, clip, t, prec);
+        got = PolyTreeToPathsD(t);
+        PolyTree64 t64;
+        BooleanOp(ct, fr, scaleIn(subj, s2), scaleIn(clip, s2), t64);
+        want = PolyTreeToPaths64(t64);
+        ST.count("booleanop_via_polytreeD");
+      } else got = BooleanOp(ct, fr, subj, clip, prec);
       if (!samePaths(got, want, s2, why)) { v.fail(why + cfg); return v; }
       outSize = got.size();
       break;
@@ -164,7 +183,7 @@ Case gen() {
   c.pd["subj"] = subj; c.pd["clip"] = clip;
   if (!open.empty()) c.pd["open"] = open;
   c.i["ct"] = G::range(0, 3); c.i["fr"] = G::range(0, 3); c.i["pc"] = G::range(0, 1); c.i["rev"] = G::range(0, 1);
-  c.i["jt"] = G::range(0, 3); c.i["et"] = G::range(0, 4); c.i["closed"] = G::range(0, 1);
+  c.i["jt"] = G::range(0, 3); c.i["et"] = G::range(0, 4); c.i["closed"] = G::range(0, 1); c.i["alt"] = G::range(0, 2);
   double ds = (double)K / scale;
   c.d["delta"] = G::real(-0.3, 0.3) * ds + (G::coin() ? 0.7 / scale : 0);
   c.d["ml"] = G::real(1.0, 4.0);
